@@ -7,7 +7,7 @@
       [contents] lines of a file by resolved identity. *)
 From Coq Require Import NArith List Bool.
 From Exactly Require Import Model.Doc Spec.C07 Proofs.DocBasics Proofs.DocReader Proofs.DocTerm Proofs.DocOrder
-     Proofs.DocParseSource Proofs.DocLocated Proofs.DocErrLocated Proofs.DocRefine Proofs.DocBlocks Proofs.DocExamples.
+     Proofs.DocParseSource Proofs.DocLocated Proofs.DocEndingAt Proofs.DocErrLocated Proofs.DocRefine Proofs.DocBlocks Proofs.DocExamples.
 Import ListNotations.
 Local Open Scope N_scope.
 
@@ -71,6 +71,20 @@ Theorem C07_unknown_section_is_error :
 Proof. exact unknown_header_is_error. Qed.
 Print Assumptions C07_unknown_section_is_error.
 
+(** A malformed inclusion directive (`including` alone, or with more than one argument) in a phase other than
+    [act] is an error report carrying the directive's OWN line number and text, its file and the chain of
+    including files, whatever follows it (also when it is the last line of the file).  The directive parser
+    consumes the line before it raises; the location is nevertheless the directive's, not the next line's. *)
+Theorem C07_malformed_directive_is_error :
+  forall iparse inc fuel fi cur n l0 rest doc args,
+    cur <> SAct -> at_eof (l0 :: rest) = false -> is_header_line l0 = false ->
+    is_empty_line l0 = false -> is_comment_line l0 = false ->
+    split_ws l0 = including_token :: args -> length args <> 1%nat ->
+    loop iparse inc (S fuel) fi cur n (l0 :: rest) doc
+    = Err (ESource (Some cur) (LineSeq n [l0]) (fi_path fi) (fi_chain fi)).
+Proof. exact malformed_directive_is_error. Qed.
+Print Assumptions C07_malformed_directive_is_error.
+
 (** Including a file that resolves to one of the files on the chain of including files is reported as an
     access error that carries the chain (with the offending directive last). *)
 Theorem C07_cycle_is_error :
@@ -105,15 +119,17 @@ Print Assumptions C07_source_location_exact.
 
 (** Error reports: a parse that ends with a FileSourceError / FileAccessError names the file, the chain of
     inclusion directives that led to it (each a real [including TOKEN] line at the stated number of the file
-    before it), and lines that are lines of that file at the stated number ([came_from]: up to surrounding
-    white space / a preceding description); an access error names, last in its chain, the directive whose
-    file is missing, or resolves to a file that is already being included (cyclic).
-    PARTIAL: excluded by hypothesis is the error an instruction parser raises after having consumed input
-    ([IErrAt]; its source is computed by _ErrMsgSourceConstructor.ending_at from a character count) — that
-    case is tied to the code by the correspondence check and the boolean predicate only. *)
-Theorem C07_error_location_exact_partial :
+    before it), and lines that are lines of that file at the stated number ([err_src_ok]: each reported line
+    [came_from] the actual line — up to surrounding white space / a preceding description; the LAST line of a
+    report of several lines may stop where the instruction parser stopped); an access error names, last in its
+    chain, the directive whose file is missing, or resolves to a file that is already being included (cyclic).
+    Covers every error source of the reader: header errors, the inclusion directive parser (which has consumed
+    its line when it raises), description errors, instruction errors at the current line, and instruction
+    argument errors raised after input was consumed (_ErrMsgSourceConstructor.ending_at, Proofs/DocEndingAt.v).
+    Only hypothesis besides the root file being known: the lines of a file contain no newline character. *)
+Theorem C07_error_location_exact :
   forall iparse fs contents depth root path dir ls e,
-    (forall s r rest n, iparse s r rest <> IErrAt n) ->
+    (forall fid fl, contents fid = Some fl -> Forall no_nl fl) ->
     contents root = Some ls ->
     parse_root iparse fs contents depth root path dir ls = Err e ->
     match e with
@@ -121,7 +137,7 @@ Theorem C07_error_location_exact_partial :
     | _ => located_error fs contents root dir path e = true
     end.
 Proof. exact error_location_exact. Qed.
-Print Assumptions C07_error_location_exact_partial.
+Print Assumptions C07_error_location_exact.
 
 (** The two layers fit: for a file whose lines are [l :: ls] (no newline inside a line) ParseSource starts
     at line 1 with text [l]; consume_current_line moves to the next line of the list and adds 1 to the number
